@@ -68,8 +68,12 @@ class Recorder:
 
     def observe(self, *objs):
         """Feed observations into the shard digest (fresh-process determinism replay)."""
-        for o in objs:
-            self._h.update(repr(jsonable(o)).encode())
+        rs = [repr(jsonable(o)) for o in objs]
+        for r in rs:
+            self._h.update(r.encode())
+        # every observation is also a distinct-outcome sample (vacuity signal: one outcome from many executions = nothing differed)
+        if rs and len(self.outcomes) < 200000:
+            self.outcomes.add(hashlib.md5("\x00".join(rs).encode()).hexdigest()[:12])
 
     def outcome(self, obj):
         if len(self.outcomes) < 200000:
